@@ -54,7 +54,7 @@ MANIFEST = {
 RULE_TAGS = ('enum', 'shape', 'kw0', 'optsdef')
 ERR = {'unbalanced': 'EUnbalanced', 'unknown_cpt': 'EUnknownCpt', 'too_many': 'ETooMany', 'missing_node': 'EMissingNode',
        'missing_arg': 'EMissingArg', 'after_named': 'EAfterNamed', 'unknown_param': 'EUnknownParam', 'assigned': 'EAssigned',
-       'index': 'EIndex', 'opts_braces': 'EOptsBraces', 'include': 'EInclude'}
+       'index': 'EIndex', 'opts_braces': 'EOptsBraces', 'include': 'EInclude', 'empty_ns': 'EEmptyNs'}
 
 
 # ---- Coq literals -------------------------------------------------------------
@@ -355,7 +355,7 @@ def gen_malformed(rules, rng, n):
     for rule in rules:
         optl = [p for p in rule[2] if p[1] in ('name', 'value') and p[2]]
         base.append((rule, build_line(rule, rng, 'plain', 'num', ['num', 'sym'], len(optl), [])))
-    fixed = [',.R1 1 2', '(.C1 1 2 3', 'R1 1', 'R1', 'R1 1 2 3 4', 'R1 1 2 3 4 5', 'x1 1 2', '1R 1 2', 'q1 1 2', 'R1 1 2 Foo=3', 'C1 1 2 Value=3 4',
+    fixed = [',.R1 1 2', '(.C1 1 2 3', ', a..R1 1 2', 'a.b..R1 1 2', '(..R1 1 2', 'R1 1', 'R1', 'R1 1 2 3 4', 'R1 1 2 3 4 5', 'x1 1 2', '1R 1 2', 'q1 1 2', 'R1 1 2 Foo=3', 'C1 1 2 Value=3 4',
              'C1 1 2 Value=3 value=4', 'C1 1 2 IC=3 ic=4', 'R1 1 2 {3', 'R1 1 2 3}', 'R1 1 2 "3', 'R1 1 2 {3"}', 'R1 1 2 {"3}',
              'R1 1 2 {{3}', 'R1 1 2 3; l={a', 'R1 1 2 3; l=a}', '( )', ',', 'R1 1 2 {a;b}', 'V1 1 0 ac 1 2 3 4', 'V1 1 ac',
              'E1 1 2 opamp 3', 'TPA1 1 2 3 4 A 1 2 3', 'TPA1 1 2 3 4 A 1 2 3 4 5 6 7', 'K1 L1', 'SPpp1 pp .a .b',
